@@ -66,6 +66,8 @@ type World struct {
 	lastGCBusy       bool
 	sessions         map[int]*MSess
 	props            []string // properties this run's generic oracles speak for in addition to their own
+	switchTo         string   // store kind the next restart opens ("memdir")
+	switched         bool
 	lastLoc          string   // Location of the latest 202 for an upload: the session adversarial requests are aimed at
 }
 
